@@ -5,13 +5,14 @@ specs_params.py).  It reads the *current source text* of pydrex/io.py with `ast`
 and writes coq/gen/Gen_scsv.v, a shallow embedding of the pure decision logic of the SCSV code into the primitives
 of coq/Model_scsv_py.v:
 
-  whole functions   _validate_scsv_schema, _parse_scsv_bool, _parse_scsv_cell, parse_scsv_schema
+  whole functions   _validate_scsv_schema, _parse_scsv_bool, _parse_scsv_cell, parse_scsv_schema, _yaml_quote
   module constants  SCSV_TYPEMAP, SCSV_TERSEMAP, _SCSV_DEFAULT_TYPE, _SCSV_DEFAULT_FILL
   statement blocks  of save_scsv: the column-length check, the fills/types/names comprehensions, the body of the
                     row loop (per-cell parse check, isinstance / `in (float, complex)` / np.isnan / == chain, the
                     substitution of the missing marker);
                     of read_scsv: the line loop (blank lines, --- fences), the name comparison against the header
-                    row, the coltypes / missingstr / fillvals assignments
+                    row, the coltypes / missingstr / fillvals assignments;
+                    all of write_scsv_header (stream.write(x) appends x to the list that stands for the stream)
 
 coq/Inst_scsv.v proves `generated = hand-written model` (Model_scsv.v, Model_scsv_frame.v) for ALL inputs, so an edit
 of one of these source lines either changes the generated term (and the kernel rejects the instance lemma) or falls
@@ -23,11 +24,11 @@ Accepted subset (anything else raises `Unsupported` with the source line):
                for <target> in <iterable> (no else) | try/except <ValueError|KeyError> whose handler raises |
                return e | raise _err.SCSVError(...) [from None] | continue | break | _log.<level>(...) | docstrings
   expressions  constants (str/int/bool/None) | names | a[b] | a[b:c] | single comparisons == != < <= > >= in, not in |
-               and / or / not | + - % | e if c else e | tuple, list, dict (constant string keys) displays |
+               and / or / not | x is None, x is not None | + - % | f-strings without conversions | os.linesep | e if c else e | tuple, list, dict (constant string keys) displays |
                one-clause list comprehensions without condition | calls of: len, isinstance, the five classes,
                a local variable (one argument), the translated functions (keyword arguments by signature),
                np.isnan, re.split, it.batched, zip(..., strict=True), zip(*x), enumerate, and the methods
-               isidentifier, strip, lower, startswith, get, keys, find, split | np.nan | x.__qualname__
+               isidentifier, strip, lower, startswith, get, keys, find, split, replace | np.nan | x.__qualname__
   messages     the arguments of `_err.SCSVError(...)` and `_log.<level>(...)` are translated for their *effects*
                only (sub-expressions that can raise are evaluated in order); the text itself is dropped
 """
@@ -55,7 +56,7 @@ def fail(node, msg):
 # ------------------------------------------------------------------------------------------------
 CLASSES = {"str": "TStr", "int": "TInt", "float": "TFloat", "bool": "TBool", "complex": "TCplx"}
 # module aliases the source must establish (checked against its import statements)
-ALIASES = {"np": "numpy", "re": "re", "it": "itertools"}
+ALIASES = {"np": "numpy", "re": "re", "it": "itertools", "os": "os"}
 FROM_PYDREX = {"_log": "logger", "_err": "exceptions"}
 LOG_LEVELS = {"debug", "info", "warning", "error", "critical"}
 EXC = {"ValueError": "EValue", "KeyError": "EKey"}
@@ -63,7 +64,7 @@ EXC = {"ValueError": "EValue", "KeyError": "EKey"}
 METHODS = {
     "isidentifier": {0: "py_isidentifier O"}, "strip": {0: "py_strip"}, "lower": {0: "py_lower"},
     "startswith": {1: "py_startswith"}, "get": {2: "py_get"}, "keys": {0: "py_keys"},
-    "find": {1: "py_find", 3: "py_find3"}, "split": {1: "py_split"},
+    "find": {1: "py_find", 3: "py_find3"}, "split": {1: "py_split"}, "replace": {2: "py_replace"},
 }
 CMP = {ast.Eq: "py_eq O", ast.NotEq: "py_ne O", ast.Lt: "py_lt", ast.LtE: "py_le", ast.Gt: "py_gt", ast.GtE: "py_ge",
        ast.In: "py_in O", ast.NotIn: "py_not_in O"}
@@ -72,7 +73,7 @@ BUILTIN_FUNCS = {"len", "isinstance", "zip", "enumerate"}
 RESERVED = set(CLASSES) | BUILTIN_FUNCS | set(ALIASES) | set(FROM_PYDREX)
 
 CONSTANTS = ("SCSV_TYPEMAP", "SCSV_TERSEMAP", "_SCSV_DEFAULT_TYPE", "_SCSV_DEFAULT_FILL")
-FUNCTIONS = ("_validate_scsv_schema", "_parse_scsv_bool", "_parse_scsv_cell", "parse_scsv_schema")
+FUNCTIONS = ("_validate_scsv_schema", "_parse_scsv_bool", "_parse_scsv_cell", "parse_scsv_schema", "_yaml_quote")
 
 
 def coq_str(s: str) -> str:
@@ -114,7 +115,7 @@ def mutated_in(nodes):
     for n in nodes if isinstance(nodes, (list, tuple)) else [nodes]:
         for x in ast.walk(n):
             if isinstance(x, ast.Expr) and isinstance(x.value, ast.Call) and isinstance(x.value.func, ast.Attribute) \
-                    and x.value.func.attr in ("append", "pop") and isinstance(x.value.func.value, ast.Name):
+                    and x.value.func.attr in ("append", "pop", "write") and isinstance(x.value.func.value, ast.Name):
                 out.add(x.value.func.value.id)
             if isinstance(x, ast.Assign):
                 for t in x.targets:
@@ -225,6 +226,7 @@ class Body:
         self.n = 0
         self.fresh_vars = set()       # local names currently bound to a container nobody else refers to
         self.escaped = set()
+        self.sinks = set()            # parameters standing for an output stream: x.write(e) appends e to the list x
 
     def fresh(self, base="t"):
         self.n += 1
@@ -259,6 +261,9 @@ class Body:
             return "(PInt (%d))" % (-e.operand.value)
         if isinstance(e, ast.Attribute) and isinstance(e.value, ast.Name) and e.value.id == "np" and e.attr == "nan":
             return "(PFloat FNan)"
+        if isinstance(e, ast.Attribute) and isinstance(e.value, ast.Name) and e.value.id == "os" and e.attr == "linesep" \
+                and "os" not in defined:
+            return "(PStr LF)"                      # the line terminator of the platform the check runs on
         if isinstance(e, (ast.Tuple, ast.List)) and isinstance(e.ctx, ast.Load):
             parts = [self.pure(x, defined) for x in e.elts]
             if all(p is not None for p in parts):
@@ -314,6 +319,11 @@ class Body:
         if isinstance(e, ast.Compare):
             if len(e.ops) != 1:
                 fail(e, "comparison chain")
+            if isinstance(e.ops[0], (ast.Is, ast.IsNot)):
+                c0 = e.comparators[0]
+                if not (isinstance(c0, ast.Constant) and c0.value is None):
+                    fail(e, "`is` / `is not` with anything but None")
+                return f"{'py_is_none' if isinstance(e.ops[0], ast.Is) else 'py_is_not_none'} {A(e.left)}"
             op = CMP.get(type(e.ops[0]))
             if op is None:
                 fail(e, f"comparison operator {type(e.ops[0]).__name__}")
@@ -373,6 +383,23 @@ class Body:
             it = self.iter_expr(g.iter, out, defined)
             body = self.sub(e.elt, defined | {g.target.id})
             return f"list_comp (fun {ident(g.target.id)} => {body}) {it}"
+        if isinstance(e, ast.JoinedStr):                      # f"...{x}..." : the parts, str() of each value, concatenated
+            acc = None
+            for v in e.values:
+                if isinstance(v, ast.Constant) and isinstance(v.value, str):
+                    part = "(PStr %s)" % coq_str(v.value)
+                elif isinstance(v, ast.FormattedValue) and v.conversion == -1 and v.format_spec is None:
+                    part = self.fresh()
+                    out.append((part, f"py_call1 O (PType TStr) {A(v.value)}"))
+                else:
+                    fail(e, "f-string with a conversion or a format specification")
+                if acc is None:
+                    acc = part
+                else:
+                    t = self.fresh()
+                    out.append((t, f"py_add {acc} {part}"))
+                    acc = t
+            return "Ok %s" % (acc or '(PStr "")')
         if isinstance(e, ast.Attribute):
             if e.attr == "__qualname__":
                 return f"py_qualname {A(e.value)}"
@@ -594,6 +621,13 @@ class Body:
                 for a in c.args:
                     self.effects(a, out, defined)
                 return self.seq(out, "") + K(defined)
+            if isinstance(f, ast.Attribute) and isinstance(f.value, ast.Name) and f.value.id in self.sinks \
+                    and f.value.id in defined and f.attr == "write":
+                x = f.value.id
+                if len(c.args) != 1 or c.keywords:
+                    fail(s, "write with other than one argument")
+                v = self.atom(c.args[0], out, defined)
+                return self.seq(out, f"{ident(x)} <- py_append {ident(x)} {v} ;;\n") + K(defined)
             if isinstance(f, ast.Attribute) and isinstance(f.value, ast.Name) and f.value.id in defined \
                     and f.attr in ("append", "pop"):
                 x = f.value.id
@@ -672,7 +706,7 @@ class Body:
                 if n not in defined and (n in live_rest or n in out_vars or (loop_vars and n in loop_vars)):
                     fail(s, f"variable {n} is first assigned inside a loop and used after it")
             d_body = set(defined) | set(tnames)
-            body = self.block(s.body, state, state, d_body, loads(s.body) | live_rest)
+            body = self.block(s.body, state, state, d_body, (loads(s.body) & set(defined)) | live_rest)
             stpat = tuple_pat(state) if len(state) != 0 else "(_ : unit)"
             if len(state) > 1:
                 st = self.fresh("st")
@@ -817,7 +851,7 @@ def build_text():
     parts.append("\nSection Gen.\nVariable O : oracles.\n")
     sigs = {}
     # functions, callees first
-    order = ["_parse_scsv_bool", "_parse_scsv_cell", "_validate_scsv_schema", "parse_scsv_schema"]
+    order = ["_parse_scsv_bool", "_parse_scsv_cell", "_validate_scsv_schema", "parse_scsv_schema", "_yaml_quote"]
     for name in order:
         if name not in mod.funcs:
             raise Unsupported(f"function {name} not found")
@@ -844,6 +878,29 @@ def build_text():
                      f"Definition gen_{name} {' '.join('(%s : pyval)' % ident(p) for p in params)} : res pyval :=\n"
                      f"  run_fn (\n{indent(body, 4)}).\n")
         sigs[name] = (params, defaults)
+    # write_scsv_header: the whole body; the stream is a list to which stream.write(x) appends x
+    fn = mod.funcs.get("write_scsv_header")
+    if fn is None:
+        raise Unsupported("function write_scsv_header not found")
+    a = fn.args
+    if [x.arg for x in a.args] != ["stream", "schema", "comments"] or a.vararg or a.kwarg or a.kwonlyargs or a.posonlyargs \
+            or fn.decorator_list or len(a.defaults) != 1 or not (isinstance(a.defaults[0], ast.Constant) and a.defaults[0].value is None):
+        fail(fn, "signature of write_scsv_header")
+    b = Body(mod, "write_scsv_header", dict(sigs))
+    b.sinks = {"stream"}
+    b.fresh_vars = {"stream"}
+    for x in ast.walk(fn):          # the stream may only be written to
+        if isinstance(x, ast.Name) and x.id == "stream" and not isinstance(x.ctx, ast.Load):
+            fail(x, "assignment to stream")
+    uses = sum(1 for x in ast.walk(fn) if isinstance(x, ast.Name) and x.id == "stream")
+    writes = sum(1 for x in ast.walk(fn) if isinstance(x, ast.Call) and isinstance(x.func, ast.Attribute) and x.func.attr == "write"
+                 and isinstance(x.func.value, ast.Name) and x.func.value.id == "stream")
+    if uses != writes:
+        fail(fn, "stream is used for something else than stream.write(...)")
+    body = b.block(fn.body, ["stream"], None, {"stream", "schema", "comments"}, {"stream"})
+    parts.append(f"\n(* def write_scsv_header(stream, schema, comments)   -- io.py line {fn.lineno}; stream = the list of strings written so far *)\n"
+                 f"Definition gen_write_scsv_header (v_stream : pyval) (v_schema : pyval) (v_comments : pyval) : res pyval :=\n"
+                 f"  run_block (\n{indent(body, 4)}).\n")
     for fname, blocks in (("save_scsv", save_blocks), ("read_scsv", read_blocks)):
         if fname not in mod.funcs:
             raise Unsupported(f"function {fname} not found")
